@@ -368,11 +368,13 @@ func (e2eFamily) Gen(n int, seed int64, mode, tier string) []interface{} {
 			newVictim := func() string {
 				victims++
 				c := fmt.Sprintf("v%d", victims)
-				s.connect(0, c, "c-"+c, "", 60, &jPub{T: "w/will", P: "dead-" + c, Q: 0})
-				s.sub(c, []string{"w/#", "v/+"}, []int{1, 0})
+				s.connect(0, c, "c-"+c, "", 60, &jPub{T: "w/will", P: "dead-" + c, Q: int32(rng.Intn(3)), R: rng.Intn(4) == 0})
+				s.sub(c, []string{"w/#", "v/+"}, []int{1 + rng.Intn(2), 0})
 				return c
 			}
 			v := newVictim()
+			// a CONNECT that is refused: the 3 s CONNECT deadline is what bounds a silent socket
+			s.add(e2eOp{Op: "connect", N: 0, C: "refused", CID: "c-ref", Pass: "bad", KA: 60})
 			for k := 0; k < 4+rng.Intn(8); k++ {
 				valid := [][]byte{
 					encPublish("v/a", "hello", 0, false, false, 0),
@@ -427,9 +429,16 @@ func (e2eFamily) Gen(n int, seed int64, mode, tier string) []interface{} {
 					s.add(e2eOp{Op: "raw", C: v, Hex: hexs})
 				}
 				// the witness pair keeps working
-				s.pub("wpub", "w/x", fmt.Sprintf("alive%d", k), rng.Intn(2), false)
+				wq := rng.Intn(2)
+				s.pub("wpub", "w/x", fmt.Sprintf("alive%d", k), wq, false)
+				if rng.Intn(3) == 0 {
+					// the victim answers the delivery it got (QoS 2: PUBREC, so that a PUBREL is pending)
+					s.ack(v, "pubrec", "w/x", fmt.Sprintf("alive%d", k), 2, 0)
+				}
 				if rng.Intn(4) == 0 {
 					s.add(e2eOp{Op: "eof", C: v})
+					s.add(e2eOp{Op: "sweep", N: 0})
+					s.add(e2eOp{Op: "sweep", N: 0})
 					v = newVictim()
 				}
 			}
